@@ -84,10 +84,32 @@ def regenerate(pid, root, repo, goenv, scratch):
 
 
 def is_obligation_failure(pid, text):
+    """Props files that state obligations over regenerated (Gen/) definitions: a failure there is a
+    broken proof obligation, not an infrastructure error."""
     pat = get(pid).get("obligation_files")
     if not pat:
         return False
-    return any(("File \"./%s\"" % f) in text or f in text for f in pat) and "Error" in text
+    return "Error" in text and any(f in text for f in pat)
+
+
+def gen_skel(root, repo, goenv, scratch):
+    """T2: regenerate coq/Gen/Skel.v from the current source tree (rewritten only when it changed)."""
+    import shutil
+    h = os.path.join(root, "harness")
+    out = os.path.join(scratch, "Skel.v")
+    try:
+        shutil.copyfile(os.path.join(repo, "go.sum"), os.path.join(h, "go.sum"))
+    except OSError:
+        pass
+    r = subprocess.run(["go", "run", "./cmd/skel", "-repo", repo, "-out", out], cwd=h, env=goenv,
+                       stdout=subprocess.PIPE, stderr=subprocess.STDOUT, text=True, timeout=600)
+    if r.returncode != 0 or not os.path.exists(out):
+        return False, r.stdout
+    dst = os.path.join(root, "coq", "Gen", "Skel.v")
+    new = open(out).read()
+    if not os.path.exists(dst) or open(dst).read() != new:
+        open(dst, "w").write(new)
+    return True, ""
 
 
 def coqchk(pid, root):
@@ -272,3 +294,36 @@ for _p in ("C02", "C03", "C04"):
 
 for _p in ("C02", "C03", "C04"):
     PROPS[_p]["model_budget"] = {"quick": 240, "thorough": 1500}
+
+
+_T2_TB = ["translator harness/cmd/skel (go/ast, syntactic): which identifiers it treats as shared between concurrent executions of a body (free variables of the closure, receiver/pointer parameters named in the translator), which methods it treats as mutating, how it flattens branches; coq/Gen/Skel.v is regenerated from /repo on every run"]
+
+reg("C05", gen=gen_skel, obligation_files=["Props/C05.v", "Gen/Skel.v"],
+    rule="T2: the skeleton of Attacker.hit is regenerated and same_section_ok must hold of it by reflection. T1: real attacks at "
+         "unlimited rate for 15 ms (at most 4000 results) with 1..64 workers on a transport that records, per sequence number, its "
+         "entry instant and duration (optionally sleeping up to 50us); every case is non-trivial",
+    clauses={1: "sorted by sequence number the timestamps decrease somewhere (or sequence numbers are not 0..n-1)", 2: "a timestamp lies before the attack's start",
+             3: "a timestamp lies after the instant the request reached the transport", 4: "a latency is negative or smaller than the time the transport took",
+             5: "timestamp + latency lies before the transport returned"},
+    assumptions=["the stress is probabilistic: it samples the schedules the Go scheduler produces on this machine; the structural guarantee is the T2 obligation",
+                 "reduction from 'critical section' (same_section_sound) to 'atomic step' (hit_ordered) is argued, not mechanised"],
+    trusted_base=_T2_TB,
+    level_text="same_section_sound is proved in Coq for every skeleton, thread count and interleaving (the timestamp read, sequence read and increment form a critical section); hit_same_section is re-proved by reflection on the skeleton regenerated from the current source on every run; hit_ordered and ts_bounds are proved as invariants of the attack LTS where the section is one step. Tie: translator (T2) + stress runs judged by a checker defined in Coq.",
+    technique="Coq soundness proof of a static checker + reflection on a skeleton regenerated from source; LTS invariant; stress",
+    timeout={"quick": 600, "thorough": 3000})
+reg("C15", gen=gen_skel, obligation_files=["Props/C15.v", "Gen/Skel.v"],
+    rule="T2: the skeletons of the three targeter closures are regenerated and lockset_ok must hold of each by reflection. T1: 1..64 "
+         "goroutines draw concurrently from one real http / JSON targeter over 0..5000 targets until each has seen exhaustion three "
+         "times (every call stamped by a global atomic counter), and n draws from a static targeter over 1..7 targets; every case is non-trivial",
+    clauses={10: "a target was delivered twice", 11: "a target was lost (or an unknown one delivered)", 12: "a delivered target mixes fields of different targets",
+             13: "a call failed with an error other than exhaustion", 14: "a call that started after exhaustion was reported still delivered a target or error",
+             15: "data race reported", 20: "static targeter returned an unknown target", 21: "static rotation uneven: a target used fewer than floor(n/k) or more than ceil(n/k) times", 22: "data race reported"},
+    assumptions=["data-race freedom of the binary is observed with the race detector in the thorough tier on the explored schedules, not proved",
+                 "sharing through the heap below the closure's own variables (e.g. header maps of returned targets) is outside the skeleton"],
+    trusted_base=_T2_TB,
+    level_text="lockset_sound and sections_exclusive are proved in Coq for every skeleton, any number of callers and every interleaving; json/http/static_targeter_safe are re-proved by reflection on skeletons regenerated from the current source on every run; static_rotation_index is proved. Tie: translator (T2) + concurrent histories judged by a checker defined in Coq.",
+    technique="Coq soundness proof of a lockset checker + reflection on skeletons regenerated from source; concurrent stress histories",
+    timeout={"quick": 600, "thorough": 3000})
+PROPS["C02"]["gen"] = gen_skel
+PROPS["C02"]["obligation_files"] = ["Props/C02.v", "Gen/Skel.v"]
+PROPS["C02"]["trusted_base"] = _ATTACK_TB + _T2_TB
